@@ -13,7 +13,8 @@ from .core import Plugin
 SUPPORTED = ["application/sparql-results+json", "application/sparql-results+xml", "application/sparql-results+csv"]
 SYN = ["application/json", "text/json", "application/xml", "text/xml", "text/csv"]
 OTHER = ["text/html", "*/*", "application/ld+json", "text/plain", "image/png", "application/sparql-results+tsv"]
-IDENT = ["1", "0000001", "abc", "a_b", "x-y", "A.b", "", "12/34", "é"]
+# identifiers; the last five contain non-ASCII white space, which is legal IRI text (ucschar) and valid for rdflib
+IDENT = ["1", "0000001", "abc", "a_b", "x-y", "A.b", "", "12/34", "é", "10\u00a0mg", "山田\u3000太郎", "a\u2028b", "x\u0085y", "t\u2003"]
 
 
 def gen_header(rng):
@@ -73,7 +74,7 @@ class C18(Plugin):
                 usyn = []
                 for j in range(rng.choice([0, 1, 1, 2])):
                     bad = rng.random() < 0.2
-                    usyn.append(f"https://alt{i}-{j}.org/" + (rng.choice(["x y/", "<z>/", "q|/", "w^/"]) if bad else rng.choice(["", "t/", "u#"])))
+                    usyn.append(f"https://alt{i}-{j}.org/" + (rng.choice(["x y/", "<z>/", "q|/", "w^/"]) if bad else rng.choice(["", "t/", "u#", "v\u00a0w/", "\u3000/"])))
                 recs.append([f"p{i}", base, [f"P{i}"] if rng.random() < 0.3 else [], usyn, None])
             if nrec >= 2 and rng.random() < 0.3:
                 recs[1][1] = recs[0][1] + "nested/"  # nested prefixes: longest match decides
